@@ -174,7 +174,9 @@ NUC_REV = ["JC69", "F81", "K80", "HKY85", "TN93", "GTR"]
 NUC_NS = ["GN", "ssGN"]
 CODON = ["MG94HKY", "MG94GTR", "GY94", "Y98", "CNFHKY", "CNFGTR", "H04G", "H04GK", "H04GGK", "GNC"]
 PROTEIN = ["DSO78", "JTT92", "AH96", "AH96_mtmammals", "WG01"]
-DINUC = ["DINUC_tuple", "DINUC_conditional", "DINUC_monomer", "DINUCGTR_conditional", "DINUCGTR_monomer", "DINUCGN_tuple"]  # user-built predicate models
+DINUC = ["DINUC_tuple", "DINUC_conditional", "DINUC_monomer", "DINUC_monomers", "DINUCGTR_conditional", "DINUCGTR_monomer", "DINUCGN_tuple"]  # user-built predicate models
+USERCODON = ["CODON_monomers", "CODON_monomer", "CODON_conditional", "CODON_tuple"]  # user-built codon models (kappa, omega) per motif-prob model
+SOLVED = ["F81_solved", "HKY85_solved", "TN93_solved"]  # closed-form P, rate_matrix_required=False
 GTR_PAIRS = ["A/C", "A/G", "A/T", "C/G", "C/T"]
 GTR_PAIRS_XY = ["AC", "AG", "AT", "CG", "CT"]
 GN_PARS = [f"{f}>{t}" for f, t in itertools.permutations("ACTG", 2) if not (f == "T" and t == "G")]
@@ -185,14 +187,14 @@ SSGN_GROUPS = {
     "(C>T | G>A)": [("C", "T"), ("G", "A")],
     "(G>T | C>A)": [("G", "T"), ("C", "A")],
 }
-STATIONARY = set(NUC_REV + ["MG94HKY", "MG94GTR", "GY94", "Y98", "CNFHKY", "CNFGTR", "H04G", "H04GK", "H04GGK"] + PROTEIN + [m for m in DINUC if m != "DINUCGN_tuple"])
+STATIONARY = set(NUC_REV + USERCODON + SOLVED + ["MG94HKY", "MG94GTR", "GY94", "Y98", "CNFHKY", "CNFGTR", "H04G", "H04GK", "H04GGK"] + PROTEIN + [m for m in DINUC if m != "DINUCGN_tuple"])
 REVERSIBLE = set(STATIONARY)
 
 
 def kind_of(model):
-    if model in NUC_REV or model in NUC_NS:
+    if model in NUC_REV or model in NUC_NS or model in SOLVED:
         return "nuc"
-    if model in CODON:
+    if model in CODON or model in USERCODON:
         return "codon"
     if model in PROTEIN:
         return "protein"
@@ -202,6 +204,10 @@ def kind_of(model):
 
 
 def rate_param_names(model):
+    if model in SOLVED:
+        return rate_param_names(model.split("_")[0])
+    if model in USERCODON:
+        return ["kappa", "omega"]
     if model in ("JC69", "F81") or model in PROTEIN:
         return []
     if model.startswith("DINUCGTR"):
@@ -237,8 +243,10 @@ def mprob_kind(model):
     """what the model's 'motif probs' are over: 'fixed-equal', 'states', 'monomer'"""
     if model in ("JC69", "K80"):
         return "fixed-equal"
-    if model in ("MG94HKY", "MG94GTR", "DINUC_monomer", "DINUCGTR_monomer"):
+    if model in ("MG94HKY", "MG94GTR", "DINUC_monomer", "DINUCGTR_monomer", "CODON_monomer"):
         return "monomer"
+    if model in ("DINUC_monomers", "CODON_monomers"):
+        return "monomers"  # one monomer distribution per position of the word
     return "states"
 
 
@@ -256,6 +264,13 @@ def make_model(model, **kw):
 
 def _make_model(model, **kw):
     from cogent3 import get_model
+
+    if model in SOLVED:
+        return get_model(model.split("_")[0], rate_matrix_required=False, **kw)
+    if model in USERCODON:
+        from cogent3.evolve.substitution_model import TimeReversibleCodon
+
+        return TimeReversibleCodon(predicates=["kappa", "omega"], mprob_model=model.split("_")[1], name=model, recode_gaps=True, model_gaps=False, **kw)
 
     if model in DINUC:
         from cogent3.evolve.ns_substitution_model import NonReversibleDinucleotide
@@ -283,7 +298,9 @@ def _nuc_rate(model, params, a, b):
         return params.get("/".join(sorted([a, b])), 1.0)
     if model == "DINUCGN_tuple":
         return params.get(f"{a}>{b}", 1.0)
-    if model in ("K80", "HKY85", "MG94HKY", "CNFHKY", "GY94", "Y98", "H04G", "H04GK", "H04GGK") or model in DINUC:
+    if model in SOLVED:
+        return _nuc_rate(model.split("_")[0], params, a, b)
+    if model in ("K80", "HKY85", "MG94HKY", "CNFHKY", "GY94", "Y98", "H04G", "H04GK", "H04GGK") or model in DINUC or model in USERCODON:
         return params["kappa"] if is_transition(a, b) else 1.0
     if model == "TN93":
         if a in PUR and b in PUR:
@@ -314,6 +331,10 @@ def build_Q(model, states, params, mprobs, sm=None):
     if mprob_kind(model) == "monomer":
         mono = mprobs
         wp = np.array([np.prod([mono[ch] for ch in s]) for s in states])
+        wp = wp / wp.sum()
+    elif mprob_kind(model) == "monomers":
+        monos = mprobs["positions"]  # list of dicts, one per position
+        wp = np.array([np.prod([monos[p][ch] for p, ch in enumerate(s)]) for s in states])
         wp = wp / wp.sum()
     elif mprob_kind(model) == "fixed-equal":
         wp = np.ones(n) / n
@@ -350,7 +371,9 @@ def build_Q(model, states, params, mprobs, sm=None):
                     w = 1.0
                 elif mprob_kind(model) == "monomer":
                     w = mono[y[p]]
-                elif model in ("CNFHKY", "CNFGTR", "DINUC_conditional", "DINUCGTR_conditional"):
+                elif mprob_kind(model) == "monomers":
+                    w = monos[p][y[p]]
+                elif model in ("CNFHKY", "CNFGTR", "DINUC_conditional", "DINUCGTR_conditional", "CODON_conditional"):
                     ctx = sum(wp[index[s]] for s in states if all(s[q] == y[q] for q in range(wl) if q != p))
                     w = wp[j] / ctx if ctx else 0.0
                 else:  # state-frequency models (F81.., GY94, Y98, H04*, DINUC_tuple); conditional == π_j for monomers
@@ -415,6 +438,9 @@ def random_mprobs(rng, model, states):
     mk = mprob_kind(model)
     if mk == "fixed-equal":
         return None
+    if mk == "monomers":
+        wl = len(states[0])
+        return {"positions": [dict(zip("TCAG", [float(x) for x in dirichlet(rng, 4, 0.05)])) for _ in range(wl)]}
     keys = list("TCAG") if mk == "monomer" else list(states)
     low = 0.05 if len(keys) <= 4 else 0.2
     v = dirichlet(rng, len(keys), low)
@@ -459,6 +485,8 @@ def gen_problem(rng, model, ntips=None, ncols=None, ambig=None, scoped=False, bi
         prob["edge_params"][par] = [[g, round(math.exp(rng.uniform(math.log(0.2), math.log(6.0))), 5)] for g in groups]
     if bins > 1:
         prob["rate_shape"] = round(rng.uniform(0.2, 3.0), 4)
+        if rng.random() < 0.6:  # unequal bin probabilities
+            prob["bprobs"] = [float(x) for x in dirichlet(rng, bins, 0.1)]
     return prob
 
 
@@ -486,7 +514,12 @@ def build_lf(prob, tree_newick=None, aln=None, sm=None):
     lf = sm.make_likelihood_function(tree, **lfkw)
     lf.set_alignment(make_aligned_seqs(aln or prob["aln"], moltype=moltype_of(model)))
     if prob.get("mprobs") is not None:
-        lf.set_motif_probs(prob["mprobs"])
+        if "positions" in prob["mprobs"]:
+            # position-specific monomer probabilities: one rule per word position
+            for i, d in enumerate(prob["mprobs"]["positions"]):
+                lf.set_param_rule("psmprobs", value=np.array([d[ch] for ch in lf.model.mprob_model.get_input_alphabet()]), position=str(i), is_constant=True)
+        else:
+            lf.set_motif_probs(prob["mprobs"])
     if tree_newick is None:
         for e in edges(prob["tree"]):
             lf.set_param_rule("length", edge=e["name"], init=e["length"])
@@ -497,6 +530,8 @@ def build_lf(prob, tree_newick=None, aln=None, sm=None):
             lf.set_param_rule(p, edges=list(g), init=v)
     if prob.get("bins", 1) > 1:
         lf.set_param_rule("rate_shape", init=prob["rate_shape"])
+        if prob.get("bprobs"):
+            lf.set_param_rule("bprobs", init=np.array(prob["bprobs"]))
     return lf
 
 
